@@ -27,6 +27,8 @@ import tempfile
 
 import common
 from common import Failure, cZ, cN, cnat, cbool, clist, copt, cstring
+
+EXTRA_PROPS = ['C18C01']  # composition with the executor model (Props/C18C01.v): route = the executor's verdict for a single raising step
 import impl
 
 EXPLANATION = ('Theorems over the Gallina model of the exception-routing layers (total; parse-time errors are syntax errors; '
